@@ -1330,6 +1330,8 @@ class ConstrainedQuadraticModel(cyConstrainedQuadraticModel):
                     and not round(c0.rhs - c1.rhs, places))
 
         return (self.objective.is_almost_equal(other.objective, places=places)
+                and set(self.variables) == set(other.variables)
+                and all(self.vartype(v) is other.vartype(v) for v in self.variables)
                 and self.constraints.keys() == other.constraints.keys()
                 and all(constraint_eq(constraint, other.constraints[label])
                         for label, constraint in self.constraints.items()))
@@ -1352,6 +1354,8 @@ class ConstrainedQuadraticModel(cyConstrainedQuadraticModel):
                     and c0.rhs == c1.rhs)
 
         return (self.objective.is_equal(other.objective)
+                and set(self.variables) == set(other.variables)
+                and all(self.vartype(v) is other.vartype(v) for v in self.variables)
                 and self.constraints.keys() == other.constraints.keys()
                 and all(constraint_eq(constraint, other.constraints[label])
                         for label, constraint in self.constraints.items()))
